@@ -45,6 +45,7 @@ const (
 	c18SrvEcho = iota // answer (possibly held / reordered / split by the stream script)
 	c18SrvDrop        // never answer
 	c18SrvSlow        // answer after the call's time-out has passed
+	c18SrvKill        // directed scenarios: never answer, and end the stream with an error as soon as this request arrives
 )
 
 const c18CCMetaKey = "verif-cc"
@@ -70,6 +71,7 @@ type c18Stream struct {
 	received []*c18Call
 	nrecv    int
 	fbSeq    uint64
+	msgSeq   int64 // number of response messages sent on this stream
 }
 
 type c18SrvPlan struct {
@@ -229,8 +231,11 @@ func (st *c18Stream) sendLocked(s *c18Server, items []c18Item, rng *rand.Rand) {
 		return
 	}
 	resp := &tikvpb.BatchCommandsResponse{}
+	st.msgSeq++
 	for _, it := range items {
 		if it.call != nil {
+			it.call.ansStream.Store(st.id)
+			it.call.ansSeq.Store(st.msgSeq)
 			it.call.srvAnswered.Add(1)
 		}
 		resp.RequestIds = append(resp.RequestIds, it.reqID)
@@ -332,6 +337,7 @@ func (s *c18Server) BatchCommands(ss tikvpb.Tikv_BatchCommandsServer) error {
 		}
 		var now []c18Item
 		var hold []c18Item
+		killNow := false
 		st.mu.Lock()
 		for i, id := range ids {
 			if i >= len(reqs) {
@@ -351,6 +357,9 @@ func (s *c18Server) BatchCommands(ss tikvpb.Tikv_BatchCommandsServer) error {
 					c.doCancel()
 				}
 				switch c.srvMode {
+				case c18SrvKill:
+					killNow = true
+					continue
 				case c18SrvDrop:
 					s.run.count("srv_dropped", 1)
 					continue
@@ -394,6 +403,10 @@ func (s *c18Server) BatchCommands(ss tikvpb.Tikv_BatchCommandsServer) error {
 
 		total := s.totalRecv.Add(int64(len(ids)))
 		s.maybeRestart(total)
+		if killNow {
+			s.run.count("stream_kills", 1)
+			return status.Error(codes.Unavailable, "verif: directed stream failure")
+		}
 		if st.killAt > 0 && nrecv >= st.killAt {
 			s.run.count("stream_kills", 1)
 			if rng.Intn(2) == 0 {
